@@ -1,6 +1,7 @@
 SPECIFICATION TraceSpec
 CONSTANTS AggReplace = FALSE
  AggKeepFirst = TRUE
+ EarlyAdd = FALSE
 CONSTRAINT Mark
 ACTION_CONSTRAINT ActOK
 POSTCONDITION Report
